@@ -99,6 +99,12 @@ def make (spec0):
         # totals that are multiples of one hundred, computed for real
         cnt = [(100, 1, 1), (1, 100, 1), (1, 1, 100), (10, 10, 1), (10, 5, 2), (4, 5, 5), (25, 4, 1), (5, 5, 8), (2, 50, 1), (50, 2, 2)] [int (rng.integers (0, 10))]
         ax  = [(a [0], a [1] if a [1] != 0 else 0.1, n) for a, n in zip (ax, cnt)]
+    rs = np.random.default_rng ([spec0 ['seed'], 163, spec0 ['i']])
+    if kind == 'near' and rs.random () < 0.2:
+        # small tables: every way of placing one to six points along the axes (three points on one axis, two by three ...)
+        small = [(a, b, c_) for a in range (1, 7) for b in range (1, 7) for c_ in range (1, 7) if a * b * c_ <= 6]
+        cnt = small [int (rs.integers (0, len (small)))]
+        ax  = [(a [0], a [1] if (a [1] != 0 or n == 1) else 0.1, n) for a, n in zip (ax, cnt)]
     env = str (np.random.default_rng ([spec0 ['seed'], 161, spec0 ['i']]).choice (['free', 'free', 'ideal', 'real']))
     return dict (route = route, kind = kind, ax = [list (a) for a in ax], env = env)
 # end def make
